@@ -2,6 +2,8 @@ SPECIFICATION Spec
 CONSTANTS N = 4
  NNames = 1
  FullY = TRUE
+ Pep709 = FALSE
+ Skeleton = FALSE
  AllOptions = FALSE
 INVARIANT NoCapture
 INVARIANT StaysCompilable
